@@ -5,7 +5,10 @@ label numbering and strand mirroring, AlignedPair / NotAligned*Position, the rea
 Assumed invariant I (only what stages A-C are separately shown to guarantee, C12/C13):
   I1 positions of a segment are in non-decreasing absolutePosition order;      I2 every pair has |queryShift| <= maxDistance;
   I3 pairs of one segment are one-to-one and strictly increasing on both maps;   I4 the segment is a contiguous label run;
-  I5 it starts and ends with a positively scored pair and scores >= minScore.
+  I5 it starts and ends with a positively scored pair and scores >= minScore;
+  I6 (optional, cfg i6; only the small thorough configuration uses it because the nested |.| terms make every query ~100x slower): no label
+     the segment lists unpaired (or paired elsewhere) is, with a label of the other map, a strictly mutual nearest couple within
+     maxDistance of the seed's diagonal (such couples are paired: C12 (e)).
 The real AlignmentSegmentConflictResolver / SegmentChainer / AlignmentResultRow.create run on them.  The chainer's scorer is
 the real SequentialityScorer (multiplier 0: admissibility only; arbitrary finite joins are covered by C14 chain-dp).
 
@@ -78,6 +81,28 @@ def generate(E, cfg):
                 qi += 1
         for x, y in zip(pos, pos[1:]):
             E.assume(x.absolutePosition <= y.absolutePosition)
+        # I6 (from C12 (e)): a reference label and a query label that are strictly each other's nearest partner within maxDistance of
+        # this seed's diagonal are paired -- so no such couple may involve a label this segment lists unpaired or paired elsewhere
+        if cfg.get("i6", False):
+            listed_r = {x.reference.siteId for x in pos if not isinstance(x, NotAlignedQueryPosition)}
+            listed_q = {x.query.siteId for x in pos if not isinstance(x, NotAlignedReferencePosition)}
+            mine = {(x.reference.siteId, x.query.siteId) for x in pos if isinstance(x, AlignedPair)}
+            qlen = Q.length
+
+            def dist(a, b):
+                return abs(b.position - (a.position - seed))
+
+            def inwin(a):
+                return And(a.position >= seed - P["maxD"], a.position <= seed + qlen + P["maxD"])
+            for a in rp:
+                for b in qp:
+                    if (a.siteId, b.siteId) in mine or not (a.siteId in listed_r or b.siteId in listed_q):
+                        continue
+                    d = dist(a, b)
+                    nearest = And([inwin(a), d <= P["maxD"]] +
+                                  [Or(Not(inwin(a2)), d < dist(a2, b)) for a2 in rp if a2 is not a] +
+                                  [d < dist(a, b2) for b2 in qp if b2 is not b])
+                    E.assume(Not(nearest))
         scored = scorer.getScoredPositions(pos)
         E.assume(scored[0].score > 0)
         E.assume(scored[-1].score > 0)
@@ -193,6 +218,7 @@ def level2_configs(tier):
             cfgs.append(dict(KR=5, KQ=5, NS=2, rev=rev, shapes=[], sj="0",
                              shapes_per_segment=[["PQP", "PRP", "PQPP", "PPQP", "PRPP", "PPRP"], ["PP", "PPP", "PQP", "PRP"]]))
         cfgs.append(dict(KR=4, KQ=4, NS=3, rev=False, shapes=["P", "PP", "PQP", "PRP"], sj="0", dp="1/2"))
+        cfgs.append(dict(KR=3, KQ=3, NS=2, rev=False, shapes=SHAPES_QUICK, sj="0", i6=True))
     return cfgs
 
 
